@@ -404,13 +404,14 @@ class ClosedShellScf:
         from pycv.framework import BOUNDED_OK
 
         worst = 0.0
-        for xc in ("lda,vwn", "pbe", "lda,chachiyo", "pbesol"):
+        # every built-in exchange with a built-in correlation of the same rung at least once (get_xc hands the same arrays to both)
+        for xc in ("lda,vwn", "pbe", "lda,chachiyo", "pbesol", "chachiyo", "chachiyox,pbec", "pbex,chachiyoc", "lda,pw", "lda,chachiyomod", "lda,gdsmfb"):
             w, info = self.case(xc, seed)
             worst = max(worst, w)
             if w > 1e-9:
                 return Result(REFUTED, backend="native", witness=dict(xc=xc, seed=seed), replayed=True, replay_info=info,
                               detail=f"closed-shell state, xc={xc}: spin-polarised path differs from the spin-paired path (energies {info['energy_diffs']}, gradient {info['gradient_rel_diff']:.2e})")
-        return Result(BOUNDED_OK, backend="native", detail=f"bounded: LiH, two weighted k-points, four functionals: energies equal and gradient halved to {worst:.1e}")
+        return Result(BOUNDED_OK, backend="native", detail=f"bounded: LiH, two weighted k-points, ten exchange / correlation pairs: energies equal and gradient halved to {worst:.1e}")
 
     def replay(self, wit):
         w, info = self.case(wit["xc"], wit["seed"])
@@ -420,3 +421,73 @@ class ClosedShellScf:
 register(Obligation(name="C08.scf.closed_shell_polarised_path", prop=PROP, engine="B", bounded=True, run=ClosedShellScf(), budget={"quick": 300, "thorough": 600},
                     functions=["eminus.energies:get_E", "eminus.dft:get_grad", "eminus.dft:get_n_spin", "eminus.xc.utils:get_xc"],
                     doc="BOUNDED: closed-shell orbitals through the spin-polarised path: same energy contributions, half the gradient per channel"))
+
+
+# ------------------------------------------------------------------------------------------------
+# spin-exchange symmetry AT full polarisation: (n, 0) and (0, n) give swapped, finite outputs
+# ------------------------------------------------------------------------------------------------
+
+
+class SwapFullyPolarised:
+    """Native special-value evaluation of every spin-polarised built-in functional through get_xc: the outputs for (n_up, n_dw) = (n, 0) and for
+    (0, n) are finite and are each other's spin-swapped image (exc equal, vxc rows exchanged, vsigma_uu <-> vsigma_dd); the gradient of the empty
+    channel is zero. Densities over eight orders of magnitude. Exhaustive over the functionals, bounded in the sample of (n, grad n)."""
+
+    def __init__(self, only=None):
+        self.only = only
+
+    def problems(self):
+        import eminus
+        from eminus.xc import utils as U
+
+        eminus.config.backend = "numpy"
+        rng = np.random.default_rng(4)
+        n = 10 ** rng.uniform(-6, 2, 40)
+        g = rng.standard_normal((40, 3)) * (n ** (4 / 3))[:, None]
+        zero, zg = np.zeros_like(n), np.zeros_like(g)
+        bad = []
+        names = sorted(k[:-5] for k in U.IMPLEMENTED if k.endswith("_spin"))
+        if self.only is not None:
+            if self.only not in names:
+                raise RuntimeError(f"harness: {self.only} has no spin-polarised implementation")
+            names = [self.only]
+        known_nan = set()
+        for f in names:
+            slot = ["mock_xc", f] if "_c_" in f else [f, "mock_xc"]
+            gga = f.startswith("gga")
+            with np.errstate(all="ignore"):
+                a = U.get_xc(slot, np.array([n, zero]), 2, np.array([g, zg]) if gga else None)
+                b = U.get_xc(slot, np.array([zero, n]), 2, np.array([zg, g]) if gga else None)
+            for nm, x, y in (("exc", a[0], b[0]), ("vxc", a[1], b[1][::-1]), ("vsigma", a[2], None if b[2] is None else b[2][::-1])):
+                if x is None:
+                    continue
+                x, y = np.asarray(x, float), np.asarray(y, float)
+                fin_a, fin_b = np.all(np.isfinite(x)), np.all(np.isfinite(y))
+                if fin_a != fin_b:
+                    bad.append(dict(functional=f, quantity=nm, finite_for_up_only=bool(fin_a), finite_for_down_only=bool(fin_b)))
+                elif fin_a and np.abs(x - y).max() > 1e-12 * max(1.0, np.abs(x).max()):
+                    bad.append(dict(functional=f, quantity=nm, max_asymmetry=float(np.abs(x - y).max())))
+                elif not fin_a:
+                    known_nan.add(f)
+        return bad, dict(functionals=len(names), not_finite_in_both_orientations=sorted(known_nan))
+
+    def __call__(self, ob, tier, seed):
+        from pycv.framework import BOUNDED_OK
+
+        bad, st = self.problems()
+        if bad:
+            return Result(REFUTED, backend="native", witness=bad[0], replayed=True, replay_info=dict(failing=bad[:5], **st),
+                          detail=f"spin-exchange symmetry at full polarisation fails: {bad[0]}")
+        return Result(BOUNDED_OK, backend="native", stats=st, detail=f"bounded: {st['functionals']} spin-polarised functionals at (n, 0) vs (0, n), 40 densities: swapped images "
+                      f"(functionals that are not finite in BOTH orientations are the subject of C02.*.finite_zeta_*: {st['not_finite_in_both_orientations']})")
+
+    def replay(self, wit):
+        bad, st = self.problems()
+        return bool(bad), dict(failing=bad[:5], **st)
+
+
+for _f in ("gga_c_chachiyo", "gga_c_pbe", "gga_c_pbe_sol", "gga_x_chachiyo", "gga_x_pbe", "gga_x_pbe_sol", "lda_c_chachiyo", "lda_c_chachiyo_mod", "lda_c_pw", "lda_c_pw_mod",
+           "lda_c_vwn", "lda_x", "lda_xc_gdsmfb", "lda_xc_ksdt"):
+    register(Obligation(name=f"C08.swap.fully_polarised_points.{_f}", prop=PROP, engine="B", bounded=True, run=SwapFullyPolarised(_f),
+                        functions=["eminus.xc.utils:get_xc", f"eminus.xc.{_f}:{_f}_spin"],
+                        doc=f"BOUNDED ({_f}): exchanging the spin channels at fully polarised points exchanges the outputs (same finiteness in both orientations)"))
